@@ -104,12 +104,17 @@ theorem cols_step_both (V : List Name) (σ σ' : Session) (st : Step) (h : ColsA
     simp only [applyStep]
     by_cases hm : m ∈ V
     · have hne : ¬ n = m := fun e => hn (e ▸ hm)
-      cases h1 : colsOf σ.catalogCols m <;> cases h2 : colsOf σ'.catalogCols m <;> simp [colsOf_setCols, hne, hn']
+      cases h1 : colsOf σ.catalogCols m <;> cases h2 : colsOf σ'.catalogCols m <;>
+        (try split) <;> (try split) <;> simp [colsOf_setCols, hne, hn']
     · have hm' := h m hm
       rw [hm']
       cases h2 : colsOf σ'.catalogCols m with
       | none => simp [colsOf_setCols, hn']
-      | some _ => exact hn'
+      | some _ =>
+        simp only
+        split
+        · exact hn'
+        · simp [colsOf_setCols, hn']
   | alias a s => simp only [applyStep]; split <;> exact hn'
   | _ => exact hn'
 
@@ -136,7 +141,11 @@ theorem cols_step_left (V : List Name) (σ σ' : Session) (st : Step)
     simp only [applyStep]
     cases h1 : colsOf σ.catalogCols m with
     | none => simp [colsOf_setCols, hne, hn']
-    | some _ => exact hn'
+    | some _ =>
+      simp only
+      split
+      · exact hn'
+      · simp [colsOf_setCols, hne, hn']
   | alias a s => simp only [applyStep]; split <;> exact hn'
   | _ => exact hn'
 
@@ -324,48 +333,150 @@ theorem resolveIdentR_eq (σ : Session) (ctx : List CteO) (joined : List Name) (
   rw [raisesR_false σ ctx joined ident h]
   rfl
 
+/-- names whose catalog columns the history's steps set: registrations and lookups -/
+def foreignCat : List Ev → List Name
+  | [] => []
+  | .step false (.registerView n _) :: r => n :: foreignCat r
+  | .step false (.cacheCols n _) :: r => n :: foreignCat r
+  | _ :: r => foreignCat r
+
+theorem foreignCat_sub : ∀ (I : List Ev) (v : Name), v ∈ foreignCat I → v ∈ foreignViews I ++ foreignLookups I := by
+  intro I
+  induction I with
+  | nil => intro v h; simp [foreignCat] at h
+  | cons e r ih =>
+    intro v h
+    cases e with
+    | step own st =>
+      cases own with
+      | true => simp only [foreignCat, foreignViews, foreignLookups] at h ⊢; exact ih v h
+      | false =>
+        cases st <;> simp only [foreignCat, foreignViews, foreignLookups, List.mem_cons] at h ⊢ <;>
+          first
+          | exact ih v h
+          | (rcases h with h | h
+             · simp [h]
+             · have := ih v h
+               simp only [List.mem_append] at this ⊢
+               rcases this with t | t
+               · simp [t]
+               · simp [t])
+    | query ctx j ident => simp only [foreignCat, foreignViews, foreignLookups] at h ⊢; exact ih v h
+    | readView n => simp only [foreignCat, foreignViews, foreignLookups] at h ⊢; exact ih v h
+    | readSql srcs cols => simp only [foreignCat, foreignViews, foreignLookups] at h ⊢; exact ih v h
+    | observe ts => simp only [foreignCat, foreignViews, foreignLookups] at h ⊢; exact ih v h
+
+theorem viewsOwn_append : ∀ (I : List Ev) (A B : List Name), viewsOwn I A = true → viewsOwn I B = true →
+    viewsOwn I (A ++ B) = true := by
+  intro I
+  induction I with
+  | nil => intro A B _ _; rfl
+  | cons e r ih =>
+    intro A B ha hb
+    cases e with
+    | step own st => simpa [viewsOwn] using ih A B (by simpa [viewsOwn] using ha) (by simpa [viewsOwn] using hb)
+    | query ctx j ident => simpa [viewsOwn] using ih A B (by simpa [viewsOwn] using ha) (by simpa [viewsOwn] using hb)
+    | observe ts => simpa [viewsOwn] using ih A B (by simpa [viewsOwn] using ha) (by simpa [viewsOwn] using hb)
+    | readView n =>
+      simp only [viewsOwn, Bool.and_eq_true] at ha hb ⊢
+      refine ⟨?_, ih A B ha.2 hb.2⟩
+      have h1 := ha.1; have h2 := hb.1
+      simp only [Bool.not_eq_true', List.contains_eq_mem, decide_eq_false_iff_not, List.mem_append, not_or] at h1 h2 ⊢
+      exact ⟨h1, h2⟩
+    | readSql srcs cols =>
+      simp only [viewsOwn, Bool.and_eq_true, List.all_eq_true] at ha hb ⊢
+      refine ⟨fun s hs => ?_, ih A B ha.2 hb.2⟩
+      have h1 := ha.1 s hs; have h2 := hb.1 s hs
+      simp only [Bool.not_eq_true', List.contains_eq_mem, decide_eq_false_iff_not, List.mem_append, not_or] at h1 h2 ⊢
+      exact ⟨h1, h2⟩
+
+/-- when `Gen.sessSqlInferSchema` is constant, `session.sql` passes the same `infer_schema` in every session -/
+theorem sqlInfer_const (h : sqlInferConst = true) (σ σ' : Session) : sqlInfer σ = sqlInfer σ' := by
+  unfold sqlInferConst at h
+  simp only [List.all_cons, List.all_nil, Bool.and_true, Bool.and_eq_true, beq_iff_eq] at h
+  obtain ⟨⟨h1, h2⟩, h3, h4⟩ := h
+  unfold sqlInfer
+  cases !σ.catalogObjects.isEmpty <;> cases σ.catalogCols.isEmpty <;>
+    cases !σ'.catalogObjects.isEmpty <;> cases σ'.catalogCols.isEmpty <;> simp_all
+
+/-- a statement whose sources the two sessions know alike is qualified alike -/
+theorem resolveSql_agree (V : List Name) (σ σ' : Session) (hcg : ColsAgreeOff V σ σ')
+    (srcs : List (Name × Name)) (cols : List Name) (hsrc : ∀ s ∈ srcs, s.2 ∉ V)
+    (hinf : sqlInfer σ = sqlInfer σ' ∨ cols = []) : resolveSql σ srcs cols = resolveSql σ' srcs cols := by
+  rcases hinf with hinf | hinf
+  · have hs : sourceCols σ srcs = sourceCols σ' srcs := by
+      unfold sourceCols
+      apply List.map_congr_left
+      intro s hs
+      rw [hcg s.2 (hsrc s hs)]
+    unfold resolveSql
+    rw [hinf, hs]
+  · subst hinf; rfl
+
 /-- the interleaving theorem, generalised over the two sessions, the fixed set `X` of foreign ids and the
     fixed set `V` of foreign view names -/
 theorem outs_interleaved (X : List Id) (V : List Name) : ∀ (I : List Ev) (σ σ' : Session),
     AgreeOff X σ σ' → ColsAgreeOff V σ σ' →
-    (∀ id ∈ foreignIds I, id ∈ X) → (∀ v ∈ foreignViews I, v ∈ V) →
+    (∀ id ∈ foreignIds I, id ∈ X) → (∀ v ∈ foreignCat I, v ∈ V) →
     idsFresh I X = true → viewsOwn I V = true → ctesHaveIds I = true →
+    (sqlInferConst = true ∨ noUnqualifiedSql I = true) →
     outs σ I = outs σ' (onlyOwn I) := by
   intro I
   induction I with
-  | nil => intro σ σ' _ _ _ _ _ _ _; rfl
+  | nil => intro σ σ' _ _ _ _ _ _ _ _; rfl
   | cons e r ih =>
-    intro σ σ' hag hcg hX hV hf hv hi
+    intro σ σ' hag hcg hX hV hf hv hi hq
+    have hq' : sqlInferConst = true ∨ noUnqualifiedSql r = true := by
+      rcases hq with hq | hq
+      · exact Or.inl hq
+      · right
+        cases e <;> simp only [noUnqualifiedSql, Bool.and_eq_true] at hq <;> first | exact hq | exact hq.2
     cases e with
     | step own st =>
       cases own with
       | true =>
         simp only [outs, onlyOwn]
         exact ih _ _ (agree_step_both X σ σ' st hag) (cols_step_both V σ σ' st hcg)
-          (by simpa [foreignIds] using hX) (by simpa [foreignViews] using hV)
-          (by simpa [idsFresh] using hf) (by simpa [viewsOwn] using hv) (by simpa [ctesHaveIds] using hi)
+          (by simpa [foreignIds] using hX) (by simpa [foreignCat] using hV)
+          (by simpa [idsFresh] using hf) (by simpa [viewsOwn] using hv) (by simpa [ctesHaveIds] using hi) hq'
       | false =>
         simp only [outs, onlyOwn]
         refine ih _ _ (agree_step_left X σ σ' st (fun id hid => hX id (by simp [foreignIds, hid])) hag)
-          (cols_step_left V σ σ' st (fun m cols e => hV m (by rcases e with e | e <;> subst e <;> simp [foreignViews])) hcg)
+          (cols_step_left V σ σ' st (fun m cols e => hV m (by rcases e with e | e <;> subst e <;> simp [foreignCat])) hcg)
           (fun id hid => hX id (by simp [foreignIds, hid])) ?_ (by simpa [idsFresh] using hf) (by simpa [viewsOwn] using hv)
-          (by simpa [ctesHaveIds] using hi)
+          (by simpa [ctesHaveIds] using hi) hq'
         intro v hvm
         apply hV
-        cases st <;> simp [foreignViews, hvm]
+        cases st <;> simp [foreignCat, hvm]
     | query ctx j ident =>
       simp only [idsFresh, Bool.and_eq_true, List.all_eq_true] at hf
       simp only [ctesHaveIds, Bool.and_eq_true] at hi
       simp only [outs, onlyOwn]
       rw [resolveIdentR_eq σ ctx j ident hi.1, resolveIdentR_eq σ' ctx j ident hi.1]
       rw [resolveIdent_agree X σ σ' hag (withIds ctx) j ident (fun n hn => by simpa using hf.1 n hn)]
-      rw [ih σ σ' hag hcg (by simpa [foreignIds] using hX) (by simpa [foreignViews] using hV) hf.2 (by simpa [viewsOwn] using hv) hi.2]
+      rw [ih σ σ' hag hcg (by simpa [foreignIds] using hX) (by simpa [foreignCat] using hV) hf.2 (by simpa [viewsOwn] using hv) hi.2 hq']
     | readView n =>
       simp only [viewsOwn, Bool.and_eq_true] at hv
       simp only [outs, onlyOwn]
       rw [hcg n (by simpa using hv.1)]
-      rw [ih σ σ' hag hcg (by simpa [foreignIds] using hX) (by simpa [foreignViews] using hV) (by simpa [idsFresh] using hf) hv.2
-        (by simpa [ctesHaveIds] using hi)]
+      rw [ih σ σ' hag hcg (by simpa [foreignIds] using hX) (by simpa [foreignCat] using hV) (by simpa [idsFresh] using hf) hv.2
+        (by simpa [ctesHaveIds] using hi) hq']
+    | readSql srcs cols =>
+      simp only [viewsOwn, Bool.and_eq_true, List.all_eq_true] at hv
+      simp only [outs, onlyOwn]
+      have hinf : sqlInfer σ = sqlInfer σ' ∨ cols = [] := by
+        rcases hq with hq | hq
+        · exact Or.inl (sqlInfer_const hq σ σ')
+        · right
+          simp only [noUnqualifiedSql, Bool.and_eq_true, List.isEmpty_iff] at hq
+          exact hq.1
+      rw [resolveSql_agree V σ σ' hcg srcs cols (fun s hs => by simpa using hv.1 s hs) hinf]
+      rw [ih σ σ' hag hcg (by simpa [foreignIds] using hX) (by simpa [foreignCat] using hV) (by simpa [idsFresh] using hf) hv.2
+        (by simpa [ctesHaveIds] using hi) hq']
+    | observe ts =>
+      simp only [outs, onlyOwn]
+      rw [ih σ σ' hag hcg (by simpa [foreignIds] using hX) (by simpa [foreignCat] using hV) (by simpa [idsFresh] using hf)
+        (by simpa [viewsOwn] using hv) (by simpa [ctesHaveIds] using hi) hq']
 
 /-- read-only steps never change what the catalog API reports -/
 theorem readOnly_catalog (steps : List Step) : ∀ σ : Session,
